@@ -87,6 +87,10 @@ def shards(tier):
                 k = {1: 1, 2: 4, 3: 8}[depth] * (4 if W == 3 and depth == 3 else 1)
                 for i in range(k):
                     out.append({"buf": buf, "kind": "chain", "mech": mech, "depth": depth, "W": W, "slice": [i, k]})
+    # every layer stores its units in guest order: runs of several adjacent units in the top layer, followed by a hole
+    for mech in ("hdd", "vmdk-hosted", "vdi", "qcow2", "hdd-split"):
+        for i in range(2):
+            out.append({"buf": 512, "kind": "chain", "mech": mech, "depth": 2, "W": 3, "slice": [i, 2], "asc": True})
     # a delta whose first grain table is absent altogether (directory entry 0), over a full base: requests that start inside the
     # absent table's range and run into the next table
     out.append({"buf": 8192, "kind": "vmdk-absent-table"})
@@ -548,7 +552,10 @@ def _shard_chain(shard, ctx):
     with scratch_dir() as d:
         cache = {}
         for layers in sliced(itertools.product(per_layer, repeat=depth), i, k):
-            _case_chain({"kind": "chain", "mech": mech, "layers": [list(l) for l in layers]}, ctx, d, cache)
+            c_ = {"kind": "chain", "mech": mech, "layers": [list(l) for l in layers]}
+            if shard.get("asc"):
+                c_["asc"] = True
+            _case_chain(c_, ctx, d, cache)
 
 
 def _to_model_states(mech, states):
@@ -557,10 +564,13 @@ def _to_model_states(mech, states):
     return [m[s] for s in states]
 
 
+_ASCENDING = [False]  # set per case: every layer stores its units in guest order (neighbours are adjacent in the file)
+
+
 def _slots_for(states, k, placed):
     """physical slots: ascending in even layers, descending in odd layers (so neighbours are never trivially adjacent)"""
     idx = [i for i, s in enumerate(states) if s in placed]
-    order = idx if k % 2 == 0 else idx[::-1]
+    order = idx if (k % 2 == 0 or _ASCENDING[0]) else idx[::-1]
     slots = [None] * len(states)
     for n, i in enumerate(order):
         slots[i] = n
@@ -568,6 +578,9 @@ def _slots_for(states, k, placed):
 
 
 def _case_chain(case, ctx, d, cache):
+    _ASCENDING[0] = bool(case.get("asc"))
+    if case.get("asc"):
+        cache.clear()
     mech, layers = case["mech"], case["layers"]
     depth = len(layers)
     W = len(layers[0])
